@@ -23,7 +23,7 @@ RULE = (
     "open: the reads touching bytes >= 720 of an image number at most ceil(N / rpc), have "
     "strictly increasing non-overlapping offsets and stay inside the file. Non-trivial: the "
     "selected span covers >= 1 group and fewer than all groups."
-    " Domain guard: a selection is judged only if xarray produces on a trivially correct lazily indexed control backend what it produces in memory. The file objects advertise a block size of 64 bytes. Half of the cases judge an open that follows another open of the same product (handed the very same options dict object, or with another records_per_chunk); in three of five cases the selections are loaded from a copy of the tree (pickle round trip, DataTree.copy(deep=True), copy.deepcopy of the image dataset), and making the copy must not read line records."
+    " Domain guard: a selection is judged only if xarray produces on a trivially correct lazily indexed control backend what it produces in memory. The file objects advertise a block size of 64 bytes. Half of the cases judge an open that follows another open of the same product (handed the very same options dict object, or with another records_per_chunk); in three of five cases the selections are loaded from a copy of the tree (pickle round trip, DataTree.copy(deep=True), copy.deepcopy of the image dataset), and making the copy must not read line records; a third of the judged opens also write the index cache."
 )
 ASSUMPTIONS = [
     "the vtrace filesystem sees every byte the library requests (no hidden buffering: it hands out raw file objects)",
@@ -55,6 +55,8 @@ def cases(draw):
         "prior_open": draw(st.sampled_from([None, None, "same-options-object", "other-rpc"])),
         # the selections are loaded from the tree as returned / from a pickled copy / from a deep copy
         "copy": draw(st.sampled_from([None, None, "pickle", "deepcopy", "dataset-deepcopy"])),
+        # the judged open also writes the index cache (its tree is a tree like any other)
+        "create_cache": draw(st.sampled_from([False, False, True])),
     }
 
 
@@ -65,12 +67,12 @@ def plan(tier):
 
 def classify(case):
     n_groups = math.ceil(case["lines"] / min(case["rpc"], case["lines"]))
-    labels = [f"groups={'1' if n_groups == 1 else '2-5' if n_groups <= 5 else '>5'}", f"level={case['level']}", f"prior_open={case.get('prior_open')}", f"copy={case.get('copy')}"]
+    labels = [f"groups={'1' if n_groups == 1 else '2-5' if n_groups <= 5 else '>5'}", f"level={case['level']}", f"prior_open={case.get('prior_open')}", f"copy={case.get('copy')}", f"create_cache={bool(case.get('create_cache'))}"]
     return n_groups >= 2, labels
 
 
 def sub_units(case):
-    base = [case["level"], case["lines"], case["pixels"], case["rpc"], case["vseed"], case.get("prior_open"), case.get("copy")]
+    base = [case["level"], case["lines"], case["pixels"], case["rpc"], case["vseed"], case.get("prior_open"), case.get("copy"), bool(case.get("create_cache"))]
     n_groups = math.ceil(case["lines"] / min(case["rpc"], case["lines"]))
     yield [base, "open"], True
     for ops in case["selections"]:
@@ -142,6 +144,8 @@ def run_case(case):
         import ceos_alos2
 
         options = {"use_cache": False, "records_per_chunk": case["rpc"]}
+        if case.get("create_cache"):
+            options["create_cache"] = True
         if case.get("prior_open") == "same-options-object":
             harness.guard(ceos_alos2.open_alos2, prod.url, backend_options=options)
         elif case.get("prior_open") == "other-rpc":
@@ -149,6 +153,8 @@ def run_case(case):
         vtrace.STORE.clear()
         tree, err = harness.guard(ceos_alos2.open_alos2, prod.url, backend_options=options)
         events = vtrace.STORE.snapshot()
+        if case.get("create_cache"):
+            common.drop_user_cache(prod.url, info["names"]["sar_imagery"])
         if err is not None:
             return [harness.disc("exception", "open_alos2", "a tree", harness.exc_text(err))]
         geoms = {i["name"]: (i["lines"], i["reclen"]) for i in info["images"]}
